@@ -1218,22 +1218,17 @@ impl TcpConnecter {
         interval: delay,
       });
     }
-    // Only the events that stop this connecter end the wait; any other system event (another
-    // actor of the context starting or stopping) must not cut the back-off delay short.
-    let deadline = tokio::time::Instant::now() + delay;
-    loop {
-      tokio::select! {
-        biased;
-        event_res = system_event_rx.recv() => {
-          match event_res {
-            Ok(SystemEvent::ContextTerminating) => return Ok(false),
-            Ok(SystemEvent::SocketClosing { socket_id: s_id }) if s_id == self.parent_socket_id => return Ok(false),
-            Err(_) => return Ok(false),
-            Ok(_) => continue,
-          }
+    tokio::select! {
+      biased;
+      event_res = system_event_rx.recv() => {
+        match event_res {
+          Ok(SystemEvent::ContextTerminating) => Ok(false),
+          Ok(SystemEvent::SocketClosing { socket_id: s_id }) if s_id == self.parent_socket_id => Ok(false),
+          Err(_) => Ok(false),
+          Ok(_) => Ok(true),
         }
-        _ = tokio::time::sleep_until(deadline) => return Ok(true),
       }
+      _ = tokio::time::sleep(delay) => Ok(true),
     }
   }
 }
